@@ -45,7 +45,7 @@ CLAIMS.update({
  "C11": ("Theorems over the history model: a call that uses only its owner's trees/cursors/captured roots computes the same result, trace and new owned state in any two worlds that agree on the owner's possessions (whatever stores and other trees contain) and changes nothing it does not own; hence for any number of owners and EVERY interleaving of their calls (incl. persists into shared stores) each owner observes exactly what it observes running alone. "
          "Partial: the Go memory model is outside the value model - data-race freedom on shared cached nodes is decided by the -race engine (owners' histories in parallel goroutines over a shared frozen cache/store under the race detector, each compared with its solo run); LoadMast during the concurrent phase and the ARC cache are outside the theorems.", "5 C11"),
  "C07": ("Theorems (generic in key/value types): for any two trees with consistently named hash links (any contents, heights, residency mix, nil old tree) the diff succeeds and every name reported as added is reached by the new version, every name the new version reaches is reported as added or reached by the old version, symmetrically for removed; hence (C07_replica_sync) a store holding the old version plus the added nodes holds the whole new version (sto, from which LoadMast succeeds by Reload.load_canon). "
-         "Partial: 'each name at most once' (the alreadyNotified memo) not proved yet; decided by correspondence + reachable-set oracle, which also loads the new root from a store holding only old + added nodes. Hypotheses as for C06.", "5 C07"),
+         "C07_at_most_once: no name is reported twice as added or twice as removed (the alreadyNotified memo), resting on C07_names_distinct (the names a canonical tree reaches are pairwise distinct) and C07_first_key_found. Hypotheses: both trees canonical with consistently named links (invariant of histories, C01_refines_sorted_map) and no stored entry-less node (none is written since D7). Tie: correspondence of link events; reachable-set oracle, which also loads the new root from a store holding only old + added nodes.", "5 C07"),
  "C06": ("Theorems (generic in key/value types): Mast.diff on any two reachable trees (any contents incl. empty/emptied or a nil old tree, any heights, any residency mix, related or unrelated) terminates within its own step budget and its entry events are exactly the merge-difference of the two sorted listings; that merge-difference reports, for every key, exactly the event the two maps call for (added / removed / changed with old and new values, nothing on agreement), in strictly ascending key order hence once each; a stored name denotes one node (sto_fun) so skipping equal links is sound. "
          "C06_in_histories: the hypotheses hold for every pair of trees over one store in every reachable world, and the four interfaces (all / early stop / failing callback / cursor) observe exactly that list. Partial: diffs across different stores need one-node-per-name across them (collision freeness, a hypothesis); callback / early-stop / failing-callback / cursor interfaces are derived from the one event list in World.step and compared with the implementation. Tie: diff histories incl. tall trees, unrelated stores, empty and emptied sides, diffstop/difffail/diffcur; dictionary-difference oracle.", "5 C06"),
  "C12": ("Theorems: over histories a failing call leaves every tree, captured root, store and cursor of the world unchanged, read-only calls never change it, only MakeRoot writes to a store; trace order: in Insert and Delete every event that can fail (loads, comparisons, the first layer callback) precedes the commit point, read-only calls never commit, with a total layer function Insert never errs after its commit; C12_delete_refuted: the full statement is false of the state installed at the commit when the shrink loop's load fails (known finding D13, with the grow-loop callback counterpart). "
